@@ -40,10 +40,10 @@ def parse_unit(unit):
     for i, l in enumerate(lines):
         m = re.match(r"\s*//@ob\s+(\S+)\s*$", l)
         if m:
-            cur = {"id": m.group(1), "unit": unit, "props": [], "kind": "lemma", "fns": [], "post": "", "pre": "", "line": i}
+            cur = {"id": m.group(1), "unit": unit, "props": [], "kind": "lemma", "fns": [], "post": "", "pre": "", "line": i, "twin": None}
             obs.append(cur)
             continue
-        m = re.match(r"\s*//@\s*(props|kind|fns|post|pre):\s*(.*)$", l)
+        m = re.match(r"\s*//@\s*(props|kind|fns|post|pre|twin):\s*(.*)$", l)
         if m and cur is not None:
             k, v = m.group(1), m.group(2).strip()
             if k == "props":
@@ -52,6 +52,8 @@ def parse_unit(unit):
                 cur["kind"] = v
             elif k == "fns":
                 cur["fns"] = [] if v == "-" else v.split()
+            elif k == "twin":
+                cur["twin"] = v
             else:
                 cur[k] = (cur[k] + " " + v).strip()
     for o in obs:
@@ -247,7 +249,7 @@ def run_obligations(vobs, prop):
             t0 = time.time()
             rc, so, se, wall = vlib.sh(cmd, cwd=work, timeout=600)
             out["cmds"].append(f"verus <assembled {unit}.rs> --output-json --time --crate-type lib")
-            log = VERIF / "evidence" / "logs"
+            log = vlib.out_dir("evidence") / "logs"
             log.mkdir(parents=True, exist_ok=True)
             (log / f"{prop}.verus.{unit}.log").write_text(so + "\n----stderr----\n" + se)
             (log / f"{prop}.verus.{unit}.rs").write_text(text)
@@ -289,7 +291,8 @@ def run_obligations(vobs, prop):
                 or "Could not automatically infer triggers" in se
             if compile_fail:
                 first = re.search(r"^error.*(\n.*){0,3}", se, re.M)
-                out["undecided"].append(f"assembled Verus file for {unit} does not compile / was not verified: {first.group(0) if first else vr}")
+                out["undecided"].append(f"VERUS-SUBSET {unit}: assembled Verus file for {unit} does not compile / was not verified: {first.group(0) if first else vr}")
+                out.setdefault("compile_failed_units", []).append(unit)
             consistent = (not stray) and (not compile_fail) and vr.get("errors", 0) == len(hit) and vr.get("verified", 0) >= 1
             ids_in_unit = {o["id"] for o in all_unit_obs}
             canaries = [o for o in all_unit_obs if o["kind"] == "canary"]
@@ -321,7 +324,7 @@ def run_obligations(vobs, prop):
                         "note": "Verus yields no counterexample; the Kani obligation with the same contract (if any) carries the failing input",
                         "repo_tree": vlib.repo_fingerprint(),
                     }
-                    d = VERIF / "replays"
+                    d = vlib.out_dir("replays")
                     d.mkdir(exist_ok=True)
                     pth = d / f"{o['id']}.json"
                     rec["replay"] = str(pth)
@@ -340,5 +343,6 @@ def result(o, status, solver_s, extracted):
         "bound": "", "role": o["kind"], "region": None, "functions": o["fns"], "pre": o["pre"], "post": o["post"], "inputs": [],
         "counts": o["kind"] != "canary", "status": status, "raw_status": "SUCCESSFUL" if status == "DISCHARGED" else status,
         "checks": None, "covers": None, "solver_s": solver_s, "failed_checks": [],
+        "twin": o.get("twin"), "unit": o["unit"],
         "extracted": [e for e in extracted if any(e["file"] in f for f in o["fns"])] if o["kind"] == "verbatim" else [],
     }
